@@ -15,8 +15,10 @@ const int vf_tunings[][8] = {
     {0, 3, 2, 2, 2, 2, 30, 2},            /* 6 */
     {0, 1, 3, 3, 200, 100, 2, 3},         /* 7 */
     {0, 4, 1, 8, 2, 2, 1, 4},             /* 8 */
+    {0, 3, 8, 8, 2, 2, 1, 8},             /* 9 relax >= n: the whole (small) matrix is one relaxed supernode */
+    {0, 2, 4, 4, 1, 1, 1, 4},             /* 10 */
 };
-const int vf_ntunings = 9;
+const int vf_ntunings = 11;
 
 /* structural rank by augmenting paths; bit (i*n+j) set <=> entry (i,j) */
 static int aug(int m, int n, uint64_t pat, int j, int *seen, int *rowmatch)
